@@ -7,7 +7,8 @@
              items: L<hex> (printed line, without newline) N<int> (= output) M<k> (message kind) E<hex> (echo), comma separated
    The Section variables are instantiated here: the matcher is a loop-free pattern matcher (literal
    bytes, ".", "[set]", leading "^", trailing "$"; ASCII case-insensitive, as xic = 1), the filters are
-   the four shell commands of DESIGN section 5. *)
+   the four shell commands of DESIGN section 5 plus a table (command, input) -> output sent with the request:
+   words `!<command hex>:<input hex, . = empty, - = none (r !cmd)>:<output hex>`. *)
 let pr = Printf.printf
 let ints_of_bytes l = List.map int_of_n l
 let bytes_of_ints l = List.map n_of_int l
@@ -76,8 +77,32 @@ let filter cmd inp =
     Some (bytes_of_str (String.concat "" (List.map (fun l -> l ^ "\n") ls)))
   | _ -> None
 
+(* the external commands beyond the four: a table (command, input) -> output, computed by the harness (the reference ran the same
+   command on the same bytes).  An input the table does not have = the model hands the command something else than the reference. *)
+let strb l = let b = Buffer.create 256 in List.iter (fun c -> Buffer.add_char b (Char.chr (int_of_n c))) l; Buffer.contents b
+let hexs s = let b = Buffer.create (2 * String.length s + 1) in String.iter (fun c -> Buffer.add_string b (Printf.sprintf "%02x" (Char.code c))) s; Buffer.contents b
+let unhexs w = if w = "." || w = "-" then "" else String.init (String.length w / 2) (fun i -> Char.chr (hexval w.[2*i] * 16 + hexval w.[2*i+1]))
+let hexb l = match l with [] -> "-" | _ -> hexs (strb l)
+let missing = "<the model hands the command an input the reference did not>"
+let pipe_table extra =
+  List.filter_map (fun w ->
+    if String.length w > 0 && w.[0] = '!' then
+      match String.split_on_char ':' (String.sub w 1 (String.length w - 1)) with
+      | [c; i; o] -> Some ((unhexs c, (if i = "-" then None else Some (unhexs i))), unhexs o)
+      | _ -> None
+    else None) extra
+let filter_t tab cmd inp =
+  let c = strb cmd and s = strb inp in
+  match List.assoc_opt (c, Some s) tab with
+  | Some o -> Some (bytes_of_str o)
+  | None -> (match filter cmd inp with Some o -> Some o | None -> Some (bytes_of_str missing))
+let cmdout_t tab cmd =
+  match List.assoc_opt (strb cmd, None) tab with
+  | Some o -> Some (bytes_of_str o)
+  | None -> Some (bytes_of_str missing)
+
 let out_item = function
-  | OLine b -> "L" ^ hex_of_bytes b
+  | OLine b -> "L" ^ hexb b
   | ONum z -> "N" ^ string_of_int (int_of_z z)
   | OMsg k -> "M" ^ string_of_int (int_of_n k)
   | OEcho b -> "E" ^ hex_of_bytes b
@@ -93,10 +118,12 @@ let do_run wa file script extra =
   let lines = match List.rev lines with _ :: r -> List.rev r | [] -> [] in      (* what follows the last newline is never read as a line *)
   let input = List.map bytes_of_str lines in
   let s0 = init_st fdata input (wa = "1") in
-  let s = ex_main rvalid rfind filter readfile (bytes_of_str "f") (nat_of_int 100000) (nat_of_int 4000) s0 in
+  let tab = pipe_table extra in
+  (* ExPipeDefs.ex_main_x = ExDefs.ex_main plus `rx` and `r !cmd` as the first command of a line *)
+  let s = ex_main_x rvalid rfind (filter_t tab) (cmdout_t tab) readfile (bytes_of_str "f") (nat_of_int 100000) (nat_of_int 4000) s0 in
   let buf = lbuf_cp s.lb (nat_of_int 0) (nat_of_int (List.length s.lb.lns)) in
-  pr "F=%d X=%d B=%s W=%s O=%s\n" (int_of_n s.flags) (int_of_z s.xrow) (hex_of_bytes buf)
-    (match s.written with None -> "x" | Some w -> hex_of_bytes w)
+  pr "F=%d X=%d B=%s W=%s O=%s\n" (int_of_n s.flags) (int_of_z s.xrow) (hexb buf)
+    (match s.written with None -> "x" | Some w -> hexb w)
     (String.concat "," (List.rev_map out_item s.out))
 
 let hexd b = match b with [] -> "-" | _ -> hex_of_bytes b
